@@ -332,6 +332,15 @@ def setWiths (ws : Option (List WithTable)) : Query → Query
   | .single (.mk _ dist cols fr lats js wh gb hv ob sb db cb lm) => .single (.mk ws dist cols fr lats js wh gb hv ob sb db cb lm)
   | .union _ s us => .union ws s us
 
+/-- the second half of `get_insert_table_lineage` (`:148-157`): the arity test, the pairing by position, and `InsertTableLineage`,
+which keeps the up-columns in a map keyed by the down column's *name* -/
+def pairUp (lin : Lineage) (down : List SrcCol) (st : St) : Except Err (List (SrcCol × List SrcCol) × St) :=
+  if down.length != lin.allColumns.length then .error .analyzer
+  else do
+    let data ← (down.zipIdx 1).mapM fun (d, i) => do pure (d, ← lin.srcByIdx (Int.ofNat i))
+    let hash := data.foldl (fun m p => dictSet m p.1.col p.2) ([] : List (Option String × List SrcCol))
+    pure (data.map fun p => (p.1, (dictGet? hash p.1.col).getD []), st)
+
 /-- `get_insert_table_lineage` (`:132-157`) -/
 def insertLineage (cat : Cat) (h : InsertHead) (q : Query) : M (List (SrcCol × List SrcCol)) := fun st => do
   let (down, st) ← (match h.columns with
@@ -341,11 +350,6 @@ def insertLineage (cat : Cat) (h : InsertHead) (q : Query) : M (List (SrcCol × 
       pure (c.columns.map fun d => (⟨h.table.schema, h.table.name, some d.name⟩ : SrcCol), st) : Except Err (List SrcCol × St))
   let q' := setWiths h.withs q
   let (lin, st) ← selectLineage cat (fuelFor q') q' { st with subq := [], withT := [] }
-  if down.length != lin.allColumns.length then .error .analyzer
-  else do
-    let data ← (down.zipIdx 1).mapM fun (d, i) => do pure (d, ← lin.srcByIdx (Int.ofNat i))
-    -- `InsertTableLineage`: the up-columns are kept in a map keyed by the down column's *name*
-    let hash := data.foldl (fun m p => dictSet m p.1.col p.2) ([] : List (Option String × List SrcCol))
-    pure (data.map fun p => (p.1, (dictGet? hash p.1.col).getD []), st)
+  pairUp lin down st
 
 end LN
